@@ -278,8 +278,14 @@ class StoreBackendMixin(object):
     def store_cached_func_code(self, call_id, func_code=None):
         """Store the code of the cached function."""
         func_path = os.path.join(self.location, *call_id)
-        if not self._item_exists(func_path):
-            self.create_location(func_path)
+        try:
+            if not self._item_exists(func_path):
+                self.create_location(func_path)
+        except FileNotFoundError:
+            # A parent directory was removed by a concurrent clear while the
+            # function directory was being created: it will be created again
+            # when a result is stored.
+            pass
 
         if func_code is not None:
             filename = os.path.join(func_path, "func_code.py")
